@@ -186,6 +186,9 @@ func (g *gen) newProducer(kind, pkg string) *producer {
 		if g.rng.Intn(2) == 0 {
 			p.Outs = append(p.Outs, outFile{Path: g.outName("nc", ".txt"), Token: g.tok(), Group: "gb"})
 		}
+	case "named1":
+		// a single named group holding several files: one name, but more than one output
+		p.Outs = []outFile{{Path: g.outName("n1a", ".txt"), Token: g.tok(), Group: "ga"}, {Path: g.outName("n1b", ".txt"), Token: g.tok(), Group: "ga"}}
 	case "binary":
 		p.Binary = true
 		p.Outs = []outFile{{Path: g.outName("b", ".sh"), Token: g.tok(), Exe: true}}
@@ -467,6 +470,10 @@ func generate(rng *rand.Rand, idx int, vlog, root string) *repo {
 			}
 			if len(cands) == 0 {
 				cands = []*producer{g.newProducer("multi", g.pkgs[rng.Intn(len(g.pkgs))])}
+			}
+			if rng.Intn(2) == 0 {
+				// several outputs behind ONE name (a single named group): still not a single output
+				cands = []*producer{g.newProducer("named1", g.pkgs[rng.Intn(len(g.pkgs))])}
 			}
 			p := cands[rng.Intn(len(cands))]
 			c := g.newConsumer(conPkg, "not-rejected/multiple-outputs")
